@@ -15,6 +15,10 @@ MON = ["C12", "C04", "C05", "C02"]
 
 def cells(tier):
     out = []
+    # a failed task whose (finished) group is cancelled before the next flush()/close: its exception is still raised
+    for dn, da in {"flush": [[FLUSH]], "gac": [[GAC]]}.items():
+        sc = scen(pool(2), [[A("A", 2)], [cgroup("A")], [CALL]] + da, outcomes=["ret", "exc"], ecb="plain", ccb="plain")
+        out.append(cell(f"s2 A2 exc|cgroupA|call|{dn} (finished group cancelled)", sc, MON))
     for size in [2, "inf"]:
         sc = scen(pool(size, "SimpleTaskPool", fault=[0, 1], ecb="plain", ccb="plain"), [[S("S", 2), S("T", 2)], [cgroup("S")]], outcomes=["ret"])
         # (C04's per-request count cannot attribute failing call sites to one of several start() requests: not used here)
